@@ -7,6 +7,17 @@ p = [json.loads(l) for l in open('/verif/properties.jsonl') if json.loads(l)['id
 wt = "/tmp/seed-%s" % pid
 subprocess.run(["git", "-C", "/repo", "worktree", "remove", "--force", wt], stdout=subprocess.DEVNULL, stderr=subprocess.DEVNULL)
 subprocess.run(["git", "-C", "/repo", "worktree", "add", "-q", wt, "HEAD"], check=True)
+# ROUND2: list earlier seeded changes so that a new round looks elsewhere
+import glob, os
+prev = []
+for d in sorted(glob.glob('/verif/seeded/%s-*' % pid)):
+    try:
+        m = json.load(open(os.path.join(d, 'meta.json')))
+        prev.append("- " + " ".join(str(m.get('summary', '')).split())[:300])
+    except Exception:
+        pass
+PREV = ("\n\nEarlier rounds already produced these changes for this property — do NOT repeat them or close variants; pick different functions, clauses and mechanisms:\n" + "\n".join(prev)) if prev else ""
+OUT = "out%d" % (len(prev) // 3 + 1) if prev else "out"
 print(f"""You are helping test a verification effort by producing realistic defects. You work ONLY inside the git worktree {wt} (a checkout of the Go project php-any/origami: a tree-walking interpreter for a PHP-like scripting language, with a stdlib). Do not read or touch /verif or /repo or any other /tmp directory. Go build env for every shell call: `export GOFLAGS=-mod=mod GOPROXY=off` (do NOT set GOTOOLCHAIN=local or GOSUMDB=off; the sandbox is offline). Build the interpreter with `go build -o /tmp/origami-seed-{pid} .` and run a script with `/tmp/origami-seed-{pid} file.php` (.php files need a leading `<?php`; .zy files are plain mode).
 
 The property under test ({pid}: {p['title']}):
@@ -14,6 +25,8 @@ The property under test ({pid}: {p['title']}):
 Quantifier: {p['quantifier']['text']}
 Anchored code: {', '.join(p['anchors']['files'])}.
 Mechanisms meant to make it hold: {json.dumps(p['anchors'].get('mechanism'), ensure_ascii=False)}
+
+{PREV}
 
 Task: produce {n} different, independent code changes (each as its own patch against the worktree's HEAD), each of which BREAKS this property while (a) still compiling (`go build ./...`), (b) still passing the existing Go test suite unchanged (`go test -vet=off -count=1 ./...` — the parser package has one pre-existing failing test, TestDiagVendorCompileAuthStringCorrupt, which you ignore), and (c) looking like a plausible refactor / optimisation / bug a maintainer could introduce. Ask yourself what a careful code reviewer would miss. Prefer changes that need something specific to manifest — a particular interleaving, a multi-step sequence of operations, an unusual or boundary input, a particular combination of features, or two cooperating sites that each look fine alone — rather than changes that any ordinary use would expose at once. Vary the mechanisms across the {n} changes (different functions / different clauses of the property).
 
